@@ -277,7 +277,9 @@ PROPS["C10"] = {
 PROPS["C08"]["harnesses"] = PROPS["C08"]["harnesses"] + [MLOOP, MSUBMIT[2]]
 # (the multi-asset step loop is decided with Market::process_event replaced by a logging stand-in; what the real one does with each
 # instruction kind - route it unchanged to the addressed book - is appended below from C14's harnesses once those are defined)
-C08_ROUTING = ("c14_market_event_new_asset0_off", "c14_market_event_cancel_asset1_off", "c14_market_event_modify_asset1_off")
+# (c14_market_event_modify_*: the formula needs 20-30 GB - rustc encodes Event's discriminant in the tag of one of its Option fields, a symbolic
+# Option there makes the symbolic executor explore every arm of process_event - and aborts on this box; not scheduled)
+C08_ROUTING = ("c14_market_event_new_asset0_off", "c14_market_event_cancel_asset1_off", "c14_market_modify_asset0_off", "c14_market_modify_routing_small")
 PROPS["C08"]["stubs"] = PROPS["C08"]["stubs"] + ["Market::process_event -> Market::verif_log_event in market_env_step_loop_* (fixed-size log)"]
 
 PROPS["C13"]["harnesses"] = PROPS["C13"]["harnesses"] + [de("env_toggle_m2", "Env::enable_trading / disable_trading set the wrapped book's flag and change nothing else", covers=["cover.re_enabled"], timeout=600),
@@ -443,12 +445,12 @@ PROPS["C14"] = {
     "functions": ["Market::<2,L>::{new,create_order,create_and_place_order,place_order,cancel_order,modify_order,process_event,set_time,enable_trading,disable_trading,reset_trade_vols,get_time}",
                   "Market::{bid_vols,ask_vols,bid_best_vols,ask_best_vols,bid_best_vol_and_orders,ask_best_vol_and_orders,bid_levels,ask_levels,bid_asks,get_trade_vols,level_2_data}", "MarketEnv::<2,L>::step"] + BOOK_FUNCS[:2],
     "assumptions": BOOK_ASSUME + DE_ASSUME[:1],
-    "bounds": "2 assets, 2-entry table per asset (+1 created), asset addressed concrete per harness (0 and 1), one market-level operation (8 kinds, trading off) or one admin call; MarketEnv step loop with batches of 2 instructions on symbolic assets (3: out of memory)",
-    "outside": "3-4 assets (indexing code is uniform in ASSETS); market-level operations with trading on (the wrappers do not look at the flag; matching is C01); MarketEnv end-to-end with the real process_event",
+    "bounds": "2 assets, 2-entry table per asset (+1 created), asset addressed concrete per harness (0 and 1), one market-level operation (7 kinds: create, create+place, place, cancel, modify, New event, Cancellation event; trading off) or one admin call; MarketEnv step loop with batches of 2 instructions on symbolic assets (3: out of memory)",
+    "outside": "the Modify arm of Market::process_event (formula of 20-30 GB: not decided; Market::modify_order, which it forwards to, is); 3-4 assets (indexing code is uniform in ASSETS); market-level operations with trading on (the wrappers do not look at the flag; matching is C01); MarketEnv end-to-end with the real process_event",
     "explanation": "A Market<2> assembled from two independent arbitrary books: one market-level operation addressed to asset a leaves asset 1-a's complete observable snapshot and side indexes untouched and makes asset a equal to a stand-alone reference book taking the same operation; ids are (asset, per-asset sequence number); every all-asset query (incl. the re-implemented level_2_data) returns [f(book0), f(book1)]; set_time / toggles / reset reach every asset; Market::new gives each asset its own tick size and the shared clock and flag. MarketEnv<2>::step (loop harness): each asset's book receives exactly its own instructions, in the shuffled order, stamped start+i with i the position in the WHOLE batch; per-asset cache, records and per-step volumes.",
     "stubs": ["Market::process_event -> Market::verif_log_event in the market_env_step_loop_* harnesses only", "std BTreeMap -> verif_map (cfg(kani) only)"],
     "harnesses": [book(f"c14_market_{g}_asset{a}_off", f"market-level {g} addressed to asset {a}", covers=[c] if c else [], timeout=900,
-                       tiers=("quick", "thorough") if (g, a) in (("create_place", 1), ("event_new", 0), ("event_cancel", 1), ("modify", 0), ("event_modify", 1), ("create", 0)) else ("thorough",))
+                       tiers=() if g == "event_modify" else ("quick", "thorough") if (g, a) in (("create_place", 1), ("event_new", 0), ("event_cancel", 1), ("modify", 0), ("create", 0)) else ("thorough",))
                   for g, c in (("create", None), ("create_place", "cover.placed_on_addressed_asset"), ("place", None), ("cancel", None), ("modify", "cover.modify_requeued"), ("event_new", "cover.new_event_routed"),
                                ("event_cancel", "cover.cancel_event_routed"), ("event_modify", "cover.modify_event_routed")) for a in (0, 1)] + [
                   book("c14_market_admin", "set_time / toggles / reset_trade_vols reach both assets; Market::new per-asset ticks", covers=["cover.reset_reaches_asset_1"], timeout=900),
